@@ -49,7 +49,14 @@ DIGITS = """<start> ::= <num>
 <d> ::= "0" | "1" | "2" | "7"
 """
 
+# a line-oriented language: every word ends in a newline, so trailing newlines of input FILES matter
+LINES = """<start> ::= <line> | <line> <start>
+<line> ::= <w> "\\n"
+<w> ::= "a" | "b" | "ab"
+"""
+
 GRAMMARS = {
+    "lines": (LINES, {"<start>": ["<line>", "<line><start>"], "<line>": ["<w>\n"], "<w>": ["a", "b", "ab"]}),
     "assgn": (ASSGN, {"<start>": ["<stmt>"], "<stmt>": ["<assgn>", "<assgn> ; <stmt>"], "<assgn>": ["<var> := <rhs>"], "<rhs>": ["<var>", "<digit>"], "<var>": ["a", "b", "c"], "<digit>": ["0", "1", "2", "7"]}),
     "digits": (DIGITS, {"<start>": ["<num>"], "<num>": ["<d><num>", "<d>"], "<d>": ["0", "1", "2", "7"]}),
 }
@@ -64,6 +71,13 @@ def templates(gname: str):
             ('not (<rhs> = "b")', lambda s: all(not part.strip().endswith(":= b") for part in s.split(" ; "))),
             ("true", lambda s: True),
         ]
+    if gname == "lines":
+        return [
+            ('<w> = "a"', lambda s: all(w == "a" for w in s.split("\n")[:-1])),
+            ('exists <w> w: w = "ab"', lambda s: "ab" in s.split("\n")),
+            ("str.len(<start>) >= 4", lambda s: len(s) >= 4),
+            ("true", lambda s: True),
+        ]
     return [
         ('<d> = "1"', lambda s: all(ch == "1" for ch in s)),
         ('exists <d> d: d = "7"', lambda s: "7" in s),
@@ -76,10 +90,13 @@ MALFORMED_CONSTRAINTS = ['forall <var x: x = "a"', '<nosuchnonterminal> = "a"', 
 MALFORMED_GRAMMARS = ['<start> ::= <a', '<start> ::= "x" <b>\n<<>', "this is not bnf"]
 
 MEMBERS = {
+    "lines": ["a\n", "a\na\n", "ab\n", "b\nab\n", "a\nab\na\n"],
     "assgn": ["a := 1", "a := a", "b := 7", "a := 1 ; a := a", "c := 2 ; a := 7 ; b := b", "a := 0 ; a := 2"],
     "digits": ["1", "12", "7", "111", "1171", "0"],
 }
 NONMEMBERS = {
+    "lines": ["a", "", "a\n\n", "\n", "c\n", "a\nb", '"x"', "[1]", "true", '["<start>", []]'],
+    "lines": ["a\n", "a\na\n", "ab\n", "b\nab\n", "a\nab\na\n"],
     "assgn": ["a :=", "x := 1", "a := 1 ;", "", " ", "a := 1\n\n", "12", '"x"', "[1]", "true", "null", "{}", '["<start>", []]'],
     "digits": ["", "a", "1 2", "12\n\n", '"x"', "[1]", "true", "null", "{}", "1.5", '["<start>", []]'],
 }
@@ -195,8 +212,9 @@ def build_case(ctx: Ctx, d: str, row: int) -> Tuple[List[str], Dict[str, Any], A
         via_arg = False
         if kind in ("member", "member-newline"):
             content = rng.choice(MEMBERS[gname])
-            text = content
             file_content = content + ("\n" if kind == "member-newline" or rng.random() < 0.3 else "")
+            # the CLI drops ONE line terminator at the end of an input file
+            text = file_content[:-1] if file_content.endswith("\n") else file_content
         elif kind == "nonmember":
             content = rng.choice(NONMEMBERS[gname])
             text = content[:-1] if content.endswith("\n") else content
